@@ -269,7 +269,14 @@ func ruleGoHandoff(p *Program, r *Report) {
 				return true
 			}
 			for _, a := range gs.Call.Args {
-				sel, ok := ast.Unparen(a).(*ast.SelectorExpr)
+				a = ast.Unparen(a)
+				// a local that holds the field's slice header (buffered := x.events)
+				if id, isId := a.(*ast.Ident); isId {
+					if d := localDef(info, fi, id); d != nil {
+						a = ast.Unparen(d)
+					}
+				}
+				sel, ok := a.(*ast.SelectorExpr)
 				if !ok {
 					continue
 				}
